@@ -23,5 +23,50 @@ PROPS = {
                 "Tie is differential testing (T2), not a translation.",
         "assumptions": ["bit positions and widths fit a machine word without overflow (pos + len < 2^64)"],
     },
+    "C01": {
+        "title": "Only complete CRC-valid frames are ever presented as typed RTCM messages",
+        "design_ref": "DESIGN.md §7 C01, §4.3, §9.1",
+        "technique": "Lean 4 proof (refinement of the push-back-channel framer to a list-level scanner, induction on the stream; arbitrary CRC function) + differential correspondence getmsg/stream",
+        "text": "Kernel-checked theorems for every byte stream and every checksum function: each message the model of HandleMessages delivers with type >= 0 "
+                "carries exactly one ValidFrame (preamble, zero reserved bits, non-zero length = payload size, matching CRC), reports its first 12 payload bits and no error; "
+                "GetMessage returns a typed message without error only for bytes beginning with exactly one valid frame, and the message holds exactly that frame. "
+                "The model (byte channel with push-back, FetchNextMessageFrame phases, GetMessage, CheckCRC) is tied to the Go code by differential correspondence and an "
+                "independent Go oracle (own bitwise CRC-24Q).",
+        "note": "Unbounded stream length. Single-frame clause read as in DESIGN §9.1 (the suite's TestGetMessage mandates accepting a frame followed by more data). "
+                "CRC-24Q itself is tied to go-crc24q by correspondence only; the theorems hold for any crc function.",
+        "assumptions": ["input channel is eventually closed (finite stream)", "go-crc24q.Hash equals the bitwise CRC-24Q of the model (checked by correspondence)"],
+    },
+    "C02": {
+        "title": "Stream segmentation is lossless: delivered raw bytes concatenate to the input",
+        "design_ref": "DESIGN.md §7 C02, §4.3",
+        "technique": "Lean 4 proof (termination measure + refinement to list-level scan, strong induction on stream length) + differential correspondence stream/streamcap",
+        "text": "Kernel-checked theorems for every byte stream: the raw bytes of the messages delivered by the HandleMessages model concatenate to the input, none is empty, "
+                "every fetch strictly consumes input (the loop terminates; this is the termination proof of the model itself), the push-back buffer never exceeds one byte. "
+                "Tied to the Go code by correspondence over cut frames at every position, stray 0xD3 at every junk position, mixtures, and channel capacities 0/1/2/64, with a direct "
+                "concat==input / closed / no-panic oracle on the real HandleMessages.",
+        "note": "The all-schedules part (closed exactly once under any interleaving and capacity) is proved on the pipeline transition system (see C09) "
+                "and exercised here with capacities 0,1,2,64; goroutine scheduling itself is runtime behaviour outside the model.",
+        "assumptions": ["input channel is eventually closed (finite stream)"],
+    },
+    "C03": {
+        "title": "Every valid frame not preceded by a stray 0xD3 is recognised, once, in order",
+        "design_ref": "DESIGN.md §7 C03",
+        "technique": "Lean 4 proof (induction on the segment list over the list-level scanner; normalisation lemma for adjacent junk) + differential correspondence streamseg",
+        "text": "Kernel-checked theorem for every list of segments (valid frames of any type and length, non-empty 0xD3-free runs of other data, optional truncated last frame): "
+                "the HandleMessages model delivers exactly normalise(segments) in order - each frame once, typed, with exactly its own bytes; maximal junk runs and the truncated tail as non-RTCM. "
+                "Tied to the Go code by correspondence on generated segment sequences with an expected-messages oracle computed from the segment list.",
+        "note": "ValidFrame is stated on bit fields (specU) for an arbitrary crc function.",
+        "assumptions": ["input channel is eventually closed (finite stream)"],
+    },
+    "C12": {
+        "title": "A frame corrupted in payload or CRC is discarded alone; its neighbours survive",
+        "design_ref": "DESIGN.md §7 C12",
+        "technique": "Lean 4 proof (same induction as C03 with a third segment kind: leader and length of a valid frame, CRC mismatch) + differential correspondence streamseg with victims",
+        "text": "Kernel-checked theorems: for every segment list in which any number of frames are Corrupted (3-byte leader and length of a valid frame kept, CRC no longer matching, "
+                "whatever bytes the payload/CRC now hold, 0xD3 included) the model delivers each corrupted frame as one non-RTCM message holding exactly its bytes and every other segment as in C03; "
+                "one_victim states the before/after form. Tied by correspondence with 1-bit flips, bursts, 0xD3 injection, CRC-byte overwrites.",
+        "note": "Corruption that happens to leave the CRC valid is outside the property (the statement requires the CRC to no longer match).",
+        "assumptions": ["input channel is eventually closed (finite stream)"],
+    },
 }
 NOT_APPLICABLE = {}
